@@ -138,21 +138,43 @@ def rule_fresh_vm_pointer_cleared(ctx, rep, rid: str) -> None:
     t = ctx.tree
     ev = t.func("context:Context.eval")
     vmcls = ctx.facts.vm_dispatcher()[0].cls
-    cfg = ctx.facts.cfg(ev)
-    sets = [n for n in cfg.nodes if isinstance(n.ast, ast.Assign) and any(norm(tg) == "self._current_vm" for tg in n.ast.targets)]
-    assign = [n for n in sets if not (isinstance(n.ast.value, ast.Constant) and n.ast.value.value is None)]
-    clear = {n.id for n in sets if isinstance(n.ast.value, ast.Constant) and n.ast.value.value is None}
-    if not assign:
-        rep.ok(rid, "Context.eval:no-pointer", {"note": "eval does not publish its interpreter"})
-    for a in assign:
-        key = "context:Context.eval:_current_vm"
-        p = cfg.path_avoiding(a.id, lambda n: n.id in (cfg.exit.id, cfg.raise_exit.id), clear, None, start_succ=True)
-        if p is not None:
-            rep.bad(rid, key, f"Context.eval can leave (lines {[n.line for n in p if n.line]}) with self._current_vm still pointing at the finished interpreter: a later RegExp() or nested eval is judged against the previous eval's clock/stack", f"{ev.module.rel}:{a.line}")
-        else:
-            rep.ok(rid, key, {"set_at": a.line, "cleared_on_all_exits": sorted(cfg.nodes[c].line for c in clear)})
-    # no attribute of self holds a VM besides _current_vm
     ctxcls = ev.cls
+    # where the context publishes an interpreter: self.<ptr> = <a VM-typed local or parameter>
+    n_pub = 0
+    for m in ctxcls.all_methods:
+        if isinstance(m.node, ast.Lambda):
+            continue
+        lt = ctx.cg.local_types(m)
+        ann = {a.arg for a in m.node.args.args if a.annotation is not None and norm(a.annotation) == vmcls.name}
+
+        def is_vm(e: ast.AST) -> bool:
+            return isinstance(e, ast.Name) and (lt.get(e.id) is vmcls or e.id in ann)
+
+        pubs = [n for n in m.own_nodes() if isinstance(n, ast.Assign) and is_vm(n.value) and any(isinstance(tg, ast.Attribute) and norm(tg.value) == "self" for tg in n.targets)]
+        if not pubs:
+            continue
+        cfg = ctx.facts.cfg(m)
+        for a in pubs:
+            attr = next(tg.attr for tg in a.targets if isinstance(tg, ast.Attribute) and norm(tg.value) == "self")
+            if attr != "_current_vm":
+                continue  # reported below as a cached interpreter
+            n_pub += 1
+            # values that put the pointer back: None, or a local saved from the pointer before it was set
+            saved = {x.targets[0].id for x in m.own_nodes() if isinstance(x, ast.Assign) and len(x.targets) == 1 and isinstance(x.targets[0], ast.Name) and norm(x.value) == f"self.{attr}" and x.lineno < a.lineno}
+            clear = {n.id for n in cfg.nodes if isinstance(n.ast, ast.Assign) and any(norm(tg) == f"self.{attr}" for tg in n.ast.targets) and ((isinstance(n.ast.value, ast.Constant) and n.ast.value.value is None) or (isinstance(n.ast.value, ast.Name) and n.ast.value.id in saved))}
+            an = next((n for n in cfg.nodes if n.ast is a), None)
+            if an is None:
+                raise AnalysisError(f"{m.qual}: assignment to self.{attr} not found in its flow graph")
+            key = f"{m.qual}:{attr}"
+            p = cfg.path_avoiding(an.id, lambda n: n.id in (cfg.exit.id, cfg.raise_exit.id), clear, None, start_succ=True)
+            if p is not None:
+                how = "an exception thrown into the generator at its yield (the body of the with block failed)" if any(isinstance(x, (ast.Yield, ast.YieldFrom)) for n in p if n.ast is not None for x in ast.walk(n.ast)) else "that path"
+                rep.bad(rid, key, f"{m.qual} can leave (lines {[n.line for n in p if n.line]}) with self.{attr} still pointing at the finished interpreter ({how}): a later RegExp() or nested eval is judged against the previous eval's clock/stack", f"{m.module.rel}:{a.lineno}")
+            else:
+                rep.ok(rid, key, {"set_at": a.lineno, "cleared_on_all_exits": sorted(cfg.nodes[c].line for c in clear)})
+    if n_pub == 0:
+        rep.ok(rid, "Context.eval:no-pointer", {"note": "the context does not publish its interpreter"})
+    # no attribute of self holds a VM besides _current_vm
     for m in ctxcls.methods.values():
         lt = ctx.cg.local_types(m)
         for n in m.own_nodes():
@@ -168,7 +190,7 @@ def rule_fresh_vm_pointer_cleared(ctx, rep, rid: str) -> None:
 
 
 def rule_nested_globals(ctx, rep, rid: str) -> None:
-    rep.rule(rid, "every interpreter built by Context (eval, indirect eval, Function, callback helper) runs on the context's own globals dictionary (by identity, or copy-in/copy-back)", floor=3)
+    rep.rule(rid, "every interpreter built by Context (eval, indirect eval, Function, callback helper) runs on the context's own globals dictionary (by identity, or copy-in/copy-back)", floor=1)
     vmcls = ctx.facts.vm_dispatcher()[0].cls
     for cs in ctx.cg.sites:
         if cs.ext != "class:" + vmcls.qual:
